@@ -474,3 +474,33 @@ def forward_local_arrays(ps):
                 continue
         out.append(p)
     return out
+
+
+def table_loader(ps):
+    """load function for sym.fold: elements of a local array that are each written by exactly one unguarded statement outside
+    any loop with a literal subscript (`const T t[2] = {a, b}`) and never written otherwise read as the stored value"""
+    cells, dirty = {}, set()
+    for p in ps:
+        if p["kind"] == "call":
+            for a in p["args"]:
+                ra = sym.root_of(a) if isinstance(a, tuple) and a[0] in ("addr", "var", "idx") else None
+                if ra is not None and ra[0] == "var" and (a == ra or a[0] == "addr"):
+                    dirty.add(ra)           # the array itself is handed to a callee
+        if p["kind"] != "store":
+            continue
+        lv = p["lv"]
+        r = sym.root_of(lv)
+        if r is None or r[0] != "var":
+            continue
+        if lv[0] == "idx" and lv[1] == r and lv[2][0] == "int" and not p["loops"] and not p["guards"] and p["op"] == "=":
+            if lv in cells:
+                dirty.add(r)
+            cells[lv] = p["val"]
+        elif lv != r:
+            dirty.add(r)
+
+    def load(lv):
+        if lv[0] == "idx" and lv[1][0] == "var" and lv[1] not in dirty:
+            return cells.get(lv)
+        return None
+    return load
